@@ -188,7 +188,12 @@ func runCase(r *hx.Run, c hx.Case) {
 			Parts:  []bytex.PartSpec{{CType: "text/plain", Prod: bytex.Producer{Chunks: [][]byte{bytes.Repeat([]byte("CONFIDENTIAL other message. "), 40)}}}},
 			Attach: []bytex.FileSpec{{Name: "other.bin", Prod: bytex.Producer{Chunks: [][]byte{bytes.Repeat([]byte("secret"), 200)}}}}}
 		if om, err := other.Build(); err == nil {
-			_, _, _ = bytex.SafeWriteTo(om, &bytex.Sink{K: 500 + len(c.ID)%700})
+			// vary the failure offset over headers, first body, attachment body
+			seq := 0
+			if i := strings.LastIndexByte(c.ID, '-'); i >= 0 {
+				fmt.Sscanf(c.ID[i+1:], "%d", &seq)
+			}
+			_, _, _ = bytex.SafeWriteTo(om, &bytex.Sink{K: 600 + (seq*137)%1900})
 		}
 		bytex.ResetRand()
 	}
